@@ -43,7 +43,7 @@ def describe(tier):
         "rule": f"A: all cut sets of every stream of 1-3 records (bodies 0/1/3 bytes) with total length <= {12 if q else 17}; "
                 f"B: BFS over arrival orders (+<=2 exact duplicates) of every segmentation with <= {3 if q else 4} segments of "
                 "selected streams, with a second direction interleaved; W: ISN in {0,1,2^31-1} and every ISN that puts the 2^32 "
-                "wrap on a byte of the stream x all cut sets (2-record stream) and all orders of <=3 segments; X non-trivial: >= 2 segments; distinct = distinct (stream, "
+                "wrap on a byte of the stream x all cut sets (2-record stream) and all orders of <=3 segments; E: end-to-end with real decryption per version class (segment sizes, every single duplicate, late duplicates, transpositions and displacements of whole segments and inside multi-segment records, segments captured 2-3 places early, equal initial sequence numbers in both directions, full-duplex merges with <=3 context switches, wrapping sequence numbers). non-trivial: >= 2 segments; distinct = distinct (stream, "
                 "segmentation, arrival order). states/transitions: of the arrival-event graphs",
         "exhaustive": True,
         "bounds": {"stream_len": 12 if q else 17, "bfs_segments": 3 if q else 4, "duplicates": 2},
